@@ -11,6 +11,7 @@ import polars as pl
 
 from pydiverse.common import (
     Dtype,
+    Float,
     Int,
     String,
 )
@@ -217,8 +218,12 @@ def compile_col_expr(
         return compiled
 
     elif isinstance(expr, LiteralCol):
+        val = expr.val
+        if type(types.without_const(expr.dtype())) is Float and type(val) is int:
+            # an integer value given with an explicit type `Float`
+            val = float(val)
         return pl.lit(
-            expr.val,
+            val,
             # only give the type explicitly if we can still be sure about it
             # in nested lists with ints / floats mixed we do not give guarantees
             dtype=expr.dtype().to_polars() if types.is_subtype(expr.dtype()) else None,
